@@ -113,6 +113,7 @@ fn contract_case_full(bias: &'static str, zero: bool, grid: bool, many: bool) ->
             pad_lines,
             line_style,
             repeat: 0,
+            base_ns: 0,
             }
         })
         .boxed()
